@@ -42,7 +42,7 @@ func init() {
 			"x ReaderErrorHandling mode x read personality; the walker then runs NewReader, SequentialScan+MakeReader, Get of every object number, DecodeStream+bounded drain of every stream, pagetree.Iterator, page.Decode, extract.Font, GlyphNameMapping, reader.ProcessPage, outline and name-tree walks inside a synctest bubble. " +
 			"non-trivial = at least one corruption applied and the header survived; distinct = hash of (base description, corruption list, mode).",
 		Assumptions: []string{
-			"time is simulated: one tick per function entry and loop iteration in every package of the repository (counter inserted by a build overlay, no hook in /repo); ticks outside internal/filter/** (the decoders' share is bounded by C08) <= 24Mi*(1+pages+fonts) + 4096*(len(image)+bytes drained), calibrated on the unchanged tree (peak 13M ticks in 24000 runs); a name-tree iteration is abandoned by the harness only after 2^32 ticks and then reported",
+			"time is simulated: one tick per function entry and loop iteration in every package of the repository (counter inserted by a build overlay, no hook in /repo); ticks outside internal/filter/** and graphics/bitmap (the decoders' share is bounded by C08) <= 24Mi*(1+pages+fonts) + 4096*(len(image)+bytes drained), calibrated on the unchanged tree (peak 13M ticks in 24000 runs); a name-tree iteration is abandoned by the harness only after 2^32 ticks and then reported",
 			"termination of loops inside a single library call: wall-clock watchdog with confirmation in a fresh process",
 			"memory: runtime.MemStats.TotalAlloc delta <= 64 MiB + 40*len(image) + 16*bytes drained + 3*(sum of StreamBudget(rawLen) over the streams opened); a coarse measured proxy, not an instrumented allocator",
 			"goroutines: exact - when the walker returns, every goroutine started inside the bubble must have exited",
@@ -417,7 +417,7 @@ func Walk(e *core.Env, img []byte, mode pdf.ReaderErrorHandling, password string
 	var ms0, ms1 runtime.MemStats
 	runtime.ReadMemStats(&ms0)
 	work0 := core.WorkNow()
-	filt0 := core.WorkIn("internal/filter")
+	filt0 := decoderTicks()
 	var pkg0 map[string]int64
 	if os.Getenv("VSIM_CALIB") != "" {
 		pkg0 = core.WorkByPackage()
@@ -426,7 +426,7 @@ func Walk(e *core.Env, img []byte, mode pdf.ReaderErrorHandling, password string
 		walk(img, mode, password, eofAtEnd, &st)
 	})
 	ticks := core.WorkNow() - work0
-	filterTicks := core.WorkIn("internal/filter") - filt0
+	filterTicks := decoderTicks() - filt0
 	runtime.ReadMemStats(&ms1)
 	if core.WorkActive() {
 		calib(ticks, filterTicks, int64(len(img)), &st, pkg0)
@@ -691,6 +691,13 @@ var corners = map[string]func(e *core.Env){
 		}
 		e.Probe("type1 corner walked")
 	},
+}
+
+// decoderTicks is the share of the simulated clock spent in the stream
+// decoders: the packages under internal/filter and graphics/bitmap, the bitmap
+// package the JBIG2 and CCITT decoders do their pixel work in.
+func decoderTicks() int64 {
+	return core.WorkIn("internal/filter") + core.WorkIn("graphics/bitmap")
 }
 
 var calibMax float64
